@@ -97,6 +97,8 @@ type interpreter struct {
 	steps     int64
 	maxSteps  int64
 	deadline  time.Time // per-path wall limit (zero: none)
+	floatRenderings map[string]floatRendering
+	intRenderings   map[string]intRendering
 	funcs     map[string]bool
 	models    map[string]int
 	inHarness bool
